@@ -51,9 +51,9 @@ func (*c15) Assumptions() []string {
 
 type c15GoVal struct {
 	v        interface{}
-	wantType string        // tengo type name ("" = must be rejected)
-	canon    string        // canonical form of the expected object
-	back     interface{}   // expected ToInterface result
+	wantType string      // tengo type name ("" = must be rejected)
+	canon    string      // canonical form of the expected object
+	back     interface{} // expected ToInterface result
 	nested   bool
 }
 
